@@ -81,6 +81,16 @@ pub fn no_panic<T>(f: impl FnOnce() -> T) -> Result<T, String> {
     }
 }
 
+/// true if a failure message is a panic raised from the harness' own source files
+pub fn is_harness_panic(msg: &str) -> bool {
+    if let Some(at) = msg.rfind(" @ ") {
+        let loc = &msg[at + 3..];
+        msg.contains("panic:") && (loc.starts_with("rsv/src") || loc.starts_with("rsv-neon/src/neon_emu") || loc.contains("/harness/rsv"))
+    } else {
+        false
+    }
+}
+
 // ----------------------------------------------------------------------
 // Stats
 
@@ -477,7 +487,17 @@ impl Run {
 
         if let Some((case, msg)) = first_failure {
             let v = serde_json::to_value(&case).unwrap_or(Value::Null);
-            self.record_failure(part, v, msg);
+            if is_harness_panic(&msg) {
+                // a bug in the checking code is never reported as a violation of the property
+                self.record_failure(part, v, msg.clone());
+                let f = self.failures.pop().unwrap();
+                self.inconclusive.push(format!(
+                    "{part}: the harness itself panicked ({msg}); case saved at {}",
+                    f.replay_path.unwrap_or_default()
+                ));
+            } else {
+                self.record_failure(part, v, msg);
+            }
         }
     }
 
